@@ -245,3 +245,51 @@ Example C01_ex_kinds :
   attr_kind (bs "a") (bs "href") = KUrl /\ attr_kind (bs "A") (bs "HREF") = KUrl /\ attr_kind (bs "form") (bs "action") = KUrl /\
   attr_kind (bs "div") (bs "href") = KDefault /\ attr_kind (bs "button") (bs "onclick") = KOn /\ attr_kind (bs "p") (bs "style") = KStyle.
 Proof. exact ex_kinds. Qed.
+
+(* ================= third round: script elements written by the RUNTIME, as a function of the operation
+   sequence on one render context ================= *)
+From V Require Import model.ScriptCtx spec.ScriptExpect proofs.ScriptCtxProof.
+
+(* For EVERY sequence of templ.RenderScriptItems(scripts...) / ComponentScript.Render / JSONScriptElement.Render
+   operations on one context (initialised or bare), every CSP nonce (any bytes) and every set of script names
+   already rendered: the bytes written are read back as exactly the intended script elements - the function text of
+   a name once per context, the call of a component every time, a script with an empty Function (templ.JSFuncCall)
+   only its call - each start tag carrying the nonce as ONE attribute value (none when empty), and the tokenizer is
+   back in the data state.  Hypothesis (the author's side, decidable, evaluated by the harness): the text of each
+   element holds no </script and no <! . *)
+Theorem C01_script_ops : forall (keep : bool) (nonce : bytes) (seen : list bytes) (ops : list sop),
+  ops_wf keep nonce seen ops = true ->
+  tok (render_ops keep nonce seen ops) = ops_expected keep nonce seen ops /\
+  fst (run Data (render_ops keep nonce seen ops)) = Data.
+Proof. exact script_ops_tokens. Qed.
+Print Assumptions C01_script_ops.
+
+(* ... followed by anything: what comes after is read as if the script elements were not there *)
+Theorem C01_script_ops_seq : forall (keep : bool) (nonce : bytes) (seen : list bytes) (ops : list sop) (rest : bytes),
+  ops_wf keep nonce seen ops = true ->
+  run Data (render_ops keep nonce seen ops ++ rest) =
+  let '(st, e) := run Data rest in (st, ops_expected keep nonce seen ops ++ e).
+Proof. exact script_ops_seq. Qed.
+Print Assumptions C01_script_ops_seq.
+
+(* the elements of script templates carry the context's nonce and no other attribute, wherever in the sequence *)
+Theorem C01_script_ops_nonce : forall (keep : bool) (nonce : bytes) (ops : list sop) (seen : list bytes) (e : sel),
+  (forall id ty own body, ~ In (OJson id ty own body) ops) ->
+  In e (ops_elems keep nonce seen ops) -> se_id e = [] /\ se_ty e = [] /\ se_nonce e = nonce.
+Proof. exact script_template_elems_nonce. Qed.
+Print Assumptions C01_script_ops_nonce.
+
+(* non-vacuity: second use of a script, a handler's RenderScriptItems before the component, a function-less call,
+   with a nonce made of metacharacters; and what a raw nonce in the second header would be read as *)
+Definition ex_hello : cscript := CS (bs "hello") (bs "function hello(a){}") (bs "hello(&#34;x&#34;)") (bs "hello(""x"")").
+Definition ex_call : cscript := CS (bs "jsFuncCall_1") [] (bs "f(1)") (bs "f(1)").
+Definition ex_ops : list sop := [OItems [ex_hello; ex_hello]; ORender ex_hello; ORender ex_hello; ORender ex_call;
+                                 OJson (bs "i""d") (bs "application/json") None (bs "{}")].
+Example C01_ex_script_ops : ops_wf true (bs """><script x=""") [] ex_ops = true /\
+  tok (render_ops true (bs """><script x=""") [] ex_ops) = ops_expected true (bs """><script x=""") [] ex_ops /\
+  length (ops_elems true (bs "n") [] ex_ops) = 5 /\ length (ops_elems false (bs "n") [] ex_ops) = 7.
+Proof. repeat split; vm_compute; reflexivity. Qed.
+Example C01_raw_nonce_breaks :
+  tok (bs "<script nonce=""" ++ bs """><script x=""" ++ bs """>f(1)</script>")
+  <> sel_tokens (SEL [] [] (bs """><script x=""") (bs "f(1)")).
+Proof. vm_compute. discriminate. Qed.
